@@ -27,6 +27,7 @@ type Session struct {
 	nfresh  int
 	Stats   *Stats
 	dead    bool
+	Seed    int
 	script  *strings.Builder // full transcript of the base level (for dumps)
 }
 
@@ -109,6 +110,10 @@ func (s *Session) Reset() {
 	s.send("(reset)")
 	s.resetState()
 	s.send(fmt.Sprintf("(set-option :timeout %d)", s.Timeout.Milliseconds()))
+	if s.Seed != 0 {
+		s.send(fmt.Sprintf("(set-option :smt.random_seed %d)", s.Seed))
+		s.send(fmt.Sprintf("(set-option :sat.random_seed %d)", s.Seed))
+	}
 }
 
 func (s *Session) send(line string) {
